@@ -100,8 +100,8 @@ def _model_floats_faithful(model):
     return True
 
 
-def _concrete_run(ob, job, model):
-    cctx = ConcreteCtx(model)
+def _concrete_run(ob, job, model, purpose="replay"):
+    cctx = ConcreteCtx(model, purpose)
     try:
         rec = ob.harness(cctx, **job)
         return "ok", rec
@@ -180,12 +180,12 @@ def _task(ob_name, job_idx, prefix, twin_offset):
         # concrete twin: real unstubbed code on a model of this path must agree
         if ob.twin and "result" in rec and (out["paths"] + twin_offset) % ob.twin_every == 0:
             try:
-                m = ctx.path_model()
-                if not _model_floats_faithful(m):
+                m = ctx.path_model(distinct=rec.get("twin_distinct"))
+                if m is None or not _model_floats_faithful(m):
                     out["twin_skipped"] += 1
                 else:
                     expected = _norm(evalm(m, rec["result"]))
-                    st, pl = _concrete_run(ob, job, m)
+                    st, pl = _concrete_run(ob, job, m, "twin")
                     if st == "violation":
                         out["errors"].append(f"twin: concrete run violates ({pl}) where symbolic path proved the property; job={job} model={m}")
                     elif st != "ok":
@@ -412,6 +412,17 @@ def run_check(prop, tier, obligations, *, level_text="", assumptions=(), wall_bu
     with open(os.path.join(EVD, f"{prop}.json"), "w") as f:
         json.dump(ev, f, indent=1, default=str)
 
+    if os.environ.get("VERIF_DEBUG"):
+        import collections
+
+        cnt = collections.Counter()
+        exm = {}
+        for v in violations:
+            key = (v["ob"][:8], v["kind"], v.get("reproduced"), json.dumps(v.get("extra"), sort_keys=True, default=str))
+            cnt[key] += 1
+            exm.setdefault(key, (v["message"][:300], v["job"], v.get("raw_model"), v.get("concrete")))
+        for key, n in sorted(cnt.items()):
+            print("DEBUG", n, key, "\n      ", exm[key], file=sys.stderr)
     for ln in lines:
         print(ln)
     status = 0
